@@ -593,9 +593,12 @@ def unary_terms(X, lvl=2):
               lambda A: m_unary(lambda s: np.where(s > 0, s, 0.0), A))
     yield _t1("T", "{a}.T", X, lambda x: x.T, lambda A: m_unary(np.transpose, A))
     if r_ == 2:
+        yield _t1("tensor_method", "{a}.transpose()", X, lambda x: x.transpose(), lambda A: m_unary(np.transpose, A, ranks=(2,)))
         yield _t1("linalg", "Transpose({a})", X, LA.Transpose, lambda A: m_unary(np.transpose, A, ranks=(2,)))
         if shape[-1] == shape[-2]:
             yield _t1("linalg", "Trace({a})", X, LA.Trace, lambda A: m_unary(np.trace, A, floor_fn=lambda M: M.mag))
+            # the method spelling of the same operation (an ndarray method the array type inherits)
+            yield _t1("tensor_method", "{a}.trace()", X, lambda x: x.trace(), lambda A: m_unary(np.trace, A, floor_fn=lambda M: M.mag))
             yield _t1("linalg", "Det({a})", X, LA.Det, m_det)
             yield _t1("linalg", "Inv({a})", X, LA.Inv, m_inv)
             yield _t1("np_function", "np.linalg.det({a})", X, np.linalg.det, m_det)
